@@ -86,12 +86,12 @@ class Report:
 
     def finish(self, replay_key=None):
         """Write evidence, print verdict lines, return the exit status."""
+        below = []
         for rule, n, what in self.minimums:
             got = self.count(rule)
             if got < n:
-                raise AnalysisError(
-                    'rule %s matched %d instance(s), fewer than the %d confirmed by hand%s'
-                    % (rule, got, n, (' (' + what + ')') if what else ''))
+                below.append('rule %s matched %d instance(s), fewer than the %d confirmed by hand%s'
+                             % (rule, got, n, (' (' + what + ')') if what else ''))
         known = [k for k in load_known() if self.prop in k.get('properties', [])]
         known_open = {(k['rule'], k['file'], k['function'], k['construct']): k
                       for k in known if k.get('status') == 'known'}
@@ -124,6 +124,9 @@ class Report:
                 o.rule, o.file, o.qual, o.construct, o.detail,
                 ('\n    witness: %r' % (o.witness,)) if o.witness is not None else ''))
             print('VIOLATION property=%s replay=%s' % (self.prop, path))
+        if below and not violations:
+            # a rule that lost its instances passes vacuously: the analysis, not the repository, is broken
+            raise AnalysisError('; '.join(below))
         self._write_evidence(len(violations), len(known_hits))
         ndis = sum(1 for o in self.obs if o.ok)
         print('%s: %d obligations, %d discharged, %d known finding(s), %d violation(s), %d unchecked, %.2fs'
